@@ -97,6 +97,11 @@ def regenerate(log):
            "def disasmStdoutSites : List String := %s\n" % gen_lean.lstrs(fd["outs"]),
            "def disasmStdoutFiles : List XV.Str := %s\n" % gen_lean.lSs([x.split(":")[0] for x in fd["outs"]]),
            "def disasmReachable : Nat := %d\n" % fd["reachable"],
+           "/-- (file, scope) pairs under xdis/ whose body reads the host interpreter's identity -/\n",
+           "def hostSites : List (XV.Str × XV.Str) := [%s]\n" % ", ".join("(%s, %s)" % (gen_lean.lS(a), gen_lean.lS(b)) for a, b, _ in effects.host_sites()),
+           "def hostSitesText : List String := %s\n" % gen_lean.lstrs(["%s %s %s" % (a, b, ",".join(c)) for a, b, c in effects.host_sites()]),
+           "/-- reviewed list /verif/ref/host_sites.txt -/\n",
+           "def hostAllow : List (XV.Str × XV.Str) := [%s]\n" % ", ".join("(%s, %s)" % (gen_lean.lS(a), gen_lean.lS(b)) for a, b, _ in effects.host_allow()),
            "end XV.Gen\n"]
     gen_lean.write_if_changed(os.path.join(LEAN, "XV", "Gen", "Effects.lean"), "".join(eff))
     p = run([MAIN_HOST, os.path.join(HARNESS, "gen_lean.py"), tj, refs, reg, os.path.join(LEAN, "XV", "Gen")])
